@@ -361,6 +361,25 @@ def r13_6(ctx, fx):
     ctx.anchor("R13.6", "active registrations", n, 1, cfg=fx.cfg)
 
 
+def r13_10(ctx, fx):
+    """"at most one terminal event": the outcome of a request's substream (response or error) is forwarded to the user only if the
+    request is still *active* - `on_substream_event` continues past its guard only over the true edge of `active.remove(&request_id)`
+    of the peer's context.  When the connection closed first, on_connection_closed has already reported RequestFailed for every
+    active request of the peer and removed the context; a response that was readable by then must not produce a second event."""
+    fn = ctx.fn(fx, "protocol::request_response::RequestResponseProtocol::on_substream_event::{closure#0}", "R13.10")
+    if fn is None:
+        return
+    rem = [c for c in fn.calls(r"HashSet(<.*>)?::remove$") if ".active" in fn.recv(c) or any(x.endswith(".active") or ".active" in x for x in guards.rootstrs(fn, c.args[0]))]
+    ctx.anchor("R13.10", "on_substream_event: active.remove(request_id)", len(rem), 1, cfg=fx.cfg)
+    good = {(sw, t) for c in rem for sw, t, f in fn.bool_tests(c.dest[0])}
+    cont = [n for n, sh in fn.exits() if not all(x.startswith("Err") or "from_residual" in x or x == "residual" for x in sh)]
+    sends = [c.node for c in fn.calls(r"mpsc::(bounded::)?Sender(<.*>)?::(send|try_send)$|oneshot::Sender(<.*>)?::send$") if not c.from_macro]
+    r = fn.reach([fn.entry], cut=good)
+    bad = [fn.site(n) for n in cont + sends if n in r]
+    ctx.ob("R13.10", "on_substream_event/outcome-forwarded-only-for-an-active-request", bool(good) and not bad, site=fn.site(rem[0].node) if rem else fn.site(fn.entry), cfg=fx.cfg,
+           detail="non-error exits / user sends reachable without the true edge of active.remove: %s" % sorted(set(bad))[:6])
+
+
 def run(ctx):
     fx = ctx.facts("default")
     r13_6(ctx, fx)
@@ -371,6 +390,7 @@ def run(ctx):
     r13_5(ctx, fx)
     r13_7(ctx, fx)
     r13_8(ctx, fx)
+    r13_10(ctx, fx)
     from common import check_no_dropped_futures
     check_no_dropped_futures(ctx, fx, "R13.9", r"^protocol::request_response::.*::\{closure#0\}(::\{closure#\d+\})*$", "request-response", 6)
     # a request / query parked behind a dial is settled only if the dial's outcome is reported: the transport manager's obligations
